@@ -97,7 +97,9 @@ fn main() {
         eprintln!("usage: gv gen <family> --seed S --count N --out DIR --shards K [--heavy]\n       gv one <family> <seed> <idx> --out DIR [--heavy]");
         std::process::exit(2);
     }
-    quiet_panics();
+    if std::env::var("GV_LOUD").is_err() {
+        quiet_panics();
+    }
     let heavy = args.iter().any(|a| a == "--heavy");
     if args.iter().any(|a| a == "--raw") {
         decode::INCLUDE_RAW.store(true, std::sync::atomic::Ordering::Relaxed);
